@@ -171,6 +171,14 @@ def arrayStep (s : Store) (toks : List String) : Option (Store × String) :=
       | _, _ => (s, "err"))
   | "dset" :: h :: ds =>
     some (putDset s h ((ds.mapM s.dim?).bind DimSet.mk?))
+  | "iarr" :: h :: ds :: sh :: vals =>
+    -- the same array, held with an integer dtype by the implementation
+    some (putArr s h (do
+      let dims ← s.dset? ds
+      let shape ← parseShape? sh
+      let vs ← vals.mapM parseRat?
+      if vs.length ≠ prodList shape then none else
+      FArr.mk? dims (ND.ofFlat shape vs.toArray 0)))
   | "arr" :: h :: ds :: sh :: vals =>
     some (putArr s h (do
       let dims ← s.dset? ds
@@ -285,6 +293,19 @@ def arrayStep2 (s : Store) (toks : List String) : Option (Store × String) :=
           (s.put hn (.nd a'), "ok " ++ showND a')
         else (s, "err")
       | _, _, _, _ => (s, "err"))
+  | ["absi", x] =>
+    -- `x.abs(inplace=True)`: written into x's own buffer
+    some (match s.harr? x with
+      | some (d, v) =>
+        let nv := ((s.readView v).map ratAbs).memo 0
+        (s.writeView v nv, "ok " ++ showArr ⟨d, nv⟩)
+      | none => (s, "err"))
+  | ["signi", x] =>
+    some (match s.harr? x with
+      | some (d, v) =>
+        let nv := ((s.readView v).map ratSign).memo 0
+        (s.writeView v nv, "ok " ++ showArr ⟨d, nv⟩)
+      | none => (s, "err"))
   | ["probe_write", x, pos, c] =>
     -- write into the values of one array (`x.values.flat[pos] = c`): only that array changes
     some (match s.harr? x, pos.toNat?, parseRat? c with
